@@ -41,6 +41,16 @@ Definition chk_cf (N D : list QcIF) (x : QcIF) (obs_coeffs : list QcIF) (obs_val
 Definition cf_defined (N D : list QcIF) : bool :=
   match cf_coeffs (S (length N + length D)) N D with Some _ => true | None => false end.
 
+Definition chk_cfi (N D : list QcIF) (x : QcIF) (obs_coeffs : list QcIF) (obs_val : QcIF) : bool :=
+  match cfi_run (S (S (2 * (length N + length D)))) N D with
+  | Some qs => veql (map (fun q => rat_eval q x) qs) obs_coeffs && veq (cf_val qs x) obs_val
+  | None => false
+  end.
+
+(* irrational roots: A = lc * prod m^n over the minimal polynomials, accounting for the full degree *)
+Definition chk_minpoly (A : list QcIF) (l : list (list QcIF * nat)) : bool :=
+  minpoly_cert A l && (S (minpoly_degree l) =? psize A)%nat.
+
 (* decomposition *)
 Definition chk_decomp (m : decomp QcIF) (B A : list QcIF) (d u : QcIF) : bool :=
   reqb (B, A) (dB m, dA m) && veq (dd m) d && veq (du m) u.
